@@ -7,7 +7,7 @@ binary) and the encoding.  An unknown callee makes the run inconclusive.
 """
 import re
 
-from .mir import Panic, Unsupported, Val, in_range, vagg, vbool, venum, vint
+from .mir import Panic, Unsupported, Val, in_range, ty_range, vagg, vbool, venum, vint, wrap
 
 NPS = 1000000000
 
@@ -52,6 +52,28 @@ def c_panic(msgidx=None, default="panic"):
         if msgidx is not None and len(args) > msgidx and args[msgidx].kind == "opaque":
             msg = args[msgidx].text.strip('"')
         return [("true", Panic(msg))]
+    return f
+
+
+def _generic_ty(callee):
+    m = re.search(r"::<(\w+)>$", callee)
+    return m.group(1) if m else None
+
+
+def c_int_intrinsic(kind):
+    """std::intrinsics::{saturating,wrapping,unchecked}_{add,sub,mul}::<T>"""
+    def f(ex, st, args, callee=None):
+        a, b = args[0], args[1]
+        ty = a.ty
+        op = {"add": "+", "sub": "-", "mul": "*"}[kind.split("_")[1]]
+        exact = f"({op} {a.term} {b.term})"
+        lo, hi = ty_range(ty)
+        if kind.startswith("saturating"):
+            return [("true", vint(f"(ite (> {exact} {lit(hi)}) {lit(hi)} (ite (< {exact} {lit(lo)}) {lit(lo)} {exact}))", ty))]
+        if kind.startswith("wrapping"):
+            return [("true", vint(wrap(exact, ty), ty))]
+        st.notes.append(("ub_if_not", in_range(exact, ty), f"{kind} overflow"))
+        return [("true", vint(exact, ty))]
     return f
 
 
@@ -178,6 +200,14 @@ TABLE = [
     (r"(core::panicking::)?panic(_nounwind|_explicit|_display)?", c_panic(0, "panic")),
     (r"(core::panicking::)?panic_const::\w+", c_panic(None, "arithmetic panic")),
     (r"std::intrinsics::cold_path", c_cold_path),
+    (r"(std|core)::intrinsics::saturating_add::<\w+>", c_int_intrinsic("saturating_add")),
+    (r"(std|core)::intrinsics::saturating_sub::<\w+>", c_int_intrinsic("saturating_sub")),
+    (r"(std|core)::intrinsics::wrapping_add::<\w+>", c_int_intrinsic("wrapping_add")),
+    (r"(std|core)::intrinsics::wrapping_sub::<\w+>", c_int_intrinsic("wrapping_sub")),
+    (r"(std|core)::intrinsics::wrapping_mul::<\w+>", c_int_intrinsic("wrapping_mul")),
+    (r"(std|core)::intrinsics::unchecked_add::<\w+>", c_int_intrinsic("unchecked_add")),
+    (r"(std|core)::intrinsics::unchecked_sub::<\w+>", c_int_intrinsic("unchecked_sub")),
+    (r"(std|core)::intrinsics::unchecked_mul::<\w+>", c_int_intrinsic("unchecked_mul")),
     (r"(chrono::)?TimeDelta::num_nanoseconds", c_td_num_nanoseconds),
     (r"(chrono::)?TimeDelta::num_seconds", c_td_num_seconds),
     (r"(chrono::)?TimeDelta::subsec_nanos", c_td_subsec_nanos),
